@@ -15,6 +15,8 @@ import SwV.Lemmas.C18
 import SwV.Lemmas.C20
 import SwV.Lemmas.C21
 import SwV.Lemmas.C20Batch
+import SwV.Lemmas.C20Links
+import SwV.Lemmas.C20LinksStep
 
 namespace SwV.Props.C20
 open SwV.Model.C18 SwV.Lemmas.C18 SwV.Lemmas.C20 SwV.Lemmas.C20Batch
@@ -229,6 +231,227 @@ theorem unlink_emits_exactly_at_last_name (s : St) (inv : TreeInv s) (c : ConsAl
   · intro h1
     have hle : ¬ r.cnt ≤ 1 := by rw [hrc]; omega
     simp [step, hf, deleteEntry, hrf, hle]
+
+/-! ### histories WITH hard links
+
+`gc_history` above lives in the plain world. Here every stored name may carry a link identity. The invariant is
+`TreeInv` ∧ `ConsAll` (every identity's record counts its names, Lemmas/C21) ∧ `ExclL` (a chunk is shown by one plain
+name or by the names of ONE identity). The operations are the ones that are not recorded findings: -/
+
+open SwV.Lemmas.C20Links SwV.Lemmas.C21 in
+/-- operations of the link world. Excluded = the recorded findings (and what the theorem does not model):
+    a plain create over a linked name (create/deletes-chunk-of-live-hardlink), DeleteEntryMetaAndData with data deletion
+    on a linked name that is not the last one (delete/deletes-chunk-of-live-hardlink), recursive deletes over links
+    (delete/chunk-of-removed-hardlink-not-deleted) and renames (rename/…); directory deletes, renames and UpdateEntry
+    are left to `gc_history`, the judge and the correspondence check.
+    Client contract: new content is not shown by a name of another owner (`FreshL`; sharing with the old version is
+    fine), a plain file gets an unused non-zero identity when first linked (`LinkFresh`). -/
+def LinkOk (s : St) : Op → Prop
+  | .create p e _ => e.hl = 0 ∧ (∀ a, (p, a) ∈ s.ents → a.hl = 0) ∧ FreshL s p e.chunks
+  | .write p _ chunks => FreshL s p chunks
+  | .link src _ h => LinkFresh s src h
+  | .unlink p => ∀ o, find s p = some o → o.isDir = false
+  | .delete p _ _ dc => (∀ o, find s p = some o → o.isDir = false) ∧
+      (dc = true → ∀ a, (p, a) ∈ s.ents → a.hl ≠ 0 → nameCount s.ents a.hl = 1)
+  | .update _ _ => False
+  | .rename _ _ => False
+
+open SwV.Lemmas.C20Links SwV.Lemmas.C21 in
+theorem linkOk_opOk (s : St) (op : Op) (h : LinkOk s op) : OpOk op := by
+  cases op with
+  | create p e x => intro _; exact h.1
+  | update p e => exact absurd h (by simp [LinkOk])
+  | _ => simp [OpOk]
+
+open SwV.Lemmas.C20Links SwV.Lemmas.C21 in
+theorem consAll_step_links (s : St) (op : Op) (inv : TreeInv s) (c : ConsAll s) (ok : LinkOk s op) : ConsAll (step s op).1 := by
+  cases op with
+  | create p e x => exact consAll_create_plain inv c p e x ok.1 ok.2.1
+  | write p t ch => exact consAll_write inv c p t ch
+  | link a b h => exact consAll_link inv c a b h ok
+  | unlink p => exact consAll_unlink inv c p ok
+  | delete p r i dc => exact consAll_delete_file inv c p r i dc ok.1
+  | update p e => exact absurd ok (by simp [LinkOk])
+  | rename a b => exact absurd ok (by simp [LinkOk])
+
+open SwV.Lemmas.C20Links SwV.Lemmas.C21 in
+/-- one step on the `Shows` level: ownership is kept, nothing handed over is still shown, and — when the operation asked
+    for data deletion (`requestsDeletion` of the judge) — everything that is no longer shown was handed over -/
+theorem gcS_step (s : St) (op : Op) (inv : TreeInv s) (c : ConsAll s) (ex : ExclL s) (ok : LinkOk s op) :
+    GcS s (step s op).1 (emitted (step s op).2) (SwV.Spec.C20.requestsDeletion s op) := by
+  cases op with
+  | create p e x =>
+    have := gcS_createEntry_plain inv ex p e x ok.1 ok.2.1 ok.2.2 true
+    simp only [step, emitted, SwV.Spec.C20.requestsDeletion]
+    rcases hc : createEntry s p e x with ⟨s', r, q⟩
+    rw [hc] at this
+    simpa using this
+  | write p tag chunks =>
+    simp only [SwV.Spec.C20.requestsDeletion]
+    cases hf : find s p with
+    | none =>
+      have := gcS_createEntry_plain inv ex p { isDir := false, tag := tag, chunks := chunks, hl := 0, cnt := 0 } false rfl
+        (fun a ha => absurd ha (find_none inv hf a)) ok true
+      simp only [step, hf, emitted]
+      rcases hc : createEntry s p { isDir := false, tag := tag, chunks := chunks, hl := 0, cnt := 0 } false with ⟨s', r, q⟩
+      rw [hc] at this
+      simpa using this
+    | some o =>
+      rcases find_stored inv hf with ⟨a, hm, _⟩
+      have key : GcS s (createEntry s p { isDir := false, tag := tag, chunks := chunks, hl := o.hl, cnt := o.cnt } false).1
+          (createEntry s p { isDir := false, tag := tag, chunks := chunks, hl := o.hl, cnt := o.cnt } false).2.2 true := by
+        by_cases h0 : a.hl = 0
+        · have ho : o = a := by
+            have := (find_of_cons inv hm).1 h0
+            rw [hf] at this
+            exact Option.some.inj this
+          subst ho
+          exact gcS_createEntry_plain inv ex p { isDir := false, tag := tag, chunks := chunks, hl := o.hl, cnt := o.cnt } false h0
+            (fun a' ha' => by rw [mem_unique inv.nodup ha' hm]; exact h0) ok true
+        · cases p with
+          | nil => exact absurd rfl (inv.parent _ hm).1
+          | cons n par => exact gcS_createEntry_linked inv c ex n par a o tag chunks hm h0 hf ok true
+      simp only [step, hf, emitted]
+      rcases hc : createEntry s p { isDir := false, tag := tag, chunks := chunks, hl := o.hl, cnt := o.cnt } false with ⟨s', r, q⟩
+      rw [hc] at key
+      simpa using key
+  | link a b h =>
+    have := gcS_linkOp inv c ex a b h ok false
+    simp only [step, emitted, SwV.Spec.C20.requestsDeletion]
+    rcases hc : linkOp s a b h with ⟨s', r, q⟩
+    rw [hc] at this
+    simpa using this
+  | unlink p =>
+    cases hf : find s p with
+    | none =>
+      simp only [step, hf, emitted, SwV.Spec.C20.requestsDeletion]
+      exact gcS_refl ex _
+    | some o =>
+      have hreq : SwV.Spec.C20.requestsDeletion s (.unlink p) = decide (o.cnt ≤ 1) := by
+        simp [SwV.Spec.C20.requestsDeletion, hf]
+      rw [hreq]
+      cases p with
+      | nil =>
+        simp only [step, hf, emitted, deleteEntry]
+        exact gcS_refl ex _
+      | cons n par =>
+        rcases find_stored inv hf with ⟨a, hm, _⟩
+        have := gcS_deleteFile inv c ex n par a o hm hf (ok o hf) false (decide (o.cnt ≤ 1)) (by
+          intro hdc hk
+          rcases (find_of_cons inv hm).2 hk (c _ hk) with ⟨r, _, hfr, _, _, hrc⟩
+          rw [hf] at hfr
+          rw [Option.some.inj hfr] at hdc
+          have : r.cnt ≤ 1 := by simpa using hdc
+          omega)
+        simp only [step, hf, emitted]
+        rcases hc : deleteEntry s (n :: par) false (decide (o.cnt ≤ 1)) with ⟨s', r, d⟩
+        rw [hc] at this
+        simpa using this
+  | delete p r i dc =>
+    simp only [SwV.Spec.C20.requestsDeletion]
+    cases p with
+    | nil =>
+      simp only [step, emitted, deleteEntry]
+      exact gcS_refl ex _
+    | cons n par =>
+      cases hf : find s (n :: par) with
+      | none =>
+        simp only [step, emitted, deleteEntry, hf]
+        exact gcS_refl ex _
+      | some o =>
+        rcases find_stored inv hf with ⟨a, hm, _⟩
+        have := gcS_deleteFile inv c ex n par a o hm hf (ok.1 o hf) r dc (by
+          intro hdc hk
+          rw [ok.2 hdc a hm hk]
+          exact Nat.le_refl 1)
+        simp only [step, emitted]
+        rcases hc : deleteEntry s (n :: par) r dc with ⟨s', r', d⟩
+        rw [hc] at this
+        simpa using this
+  | update p e => exact absurd ok (by simp [LinkOk])
+  | rename a b => exact absurd ok (by simp [LinkOk])
+
+open SwV.Lemmas.C20Links SwV.Lemmas.C21 in
+/-- one step of the link world: the invariant is kept, gc_safe holds, and gc_complete holds whenever the operation asked
+    for data deletion -/
+theorem gc_step_links (s : St) (op : Op) (inv : TreeInv s) (c : ConsAll s) (ex : ExclL s) (ok : LinkOk s op) :
+    TreeInv (step s op).1 ∧ ConsAll (step s op).1 ∧ ExclL (step s op).1 ∧
+    (∀ ch ∈ emitted (step s op).2, ¬ Referenced (step s op).1 ch) ∧
+    (SwV.Spec.C20.requestsDeletion s op = true →
+      ∀ ch, Referenced s ch → ¬ Referenced (step s op).1 ch → ch ∈ emitted (step s op).2) := by
+  have inv' := inv_step inv (linkOk_opOk s op ok)
+  have c' := consAll_step_links s op inv c ok
+  have G := gcS_step s op inv c ex ok
+  refine ⟨inv', c', G.1, ?_, ?_⟩
+  · intro ch hch hr
+    exact G.2.1 ch hch ((referenced_shows inv' c' ch).mp hr)
+  · intro hreq ch hr hn
+    exact G.2.2 hreq ch ((referenced_shows inv c ch).mp hr) (fun h => hn ((referenced_shows inv' c' ch).mpr h))
+
+open SwV.Lemmas.C20Links SwV.Lemmas.C21 in
+def AllowedRunL : St → List Op → Prop
+  | _, [] => True
+  | s, op :: t => LinkOk s op ∧ AllowedRunL (step s op).1 t
+
+/-- gc_safe at every step; gc_complete at every step that asked for data deletion (the judge's `requestsDeletion`:
+    overwrites always, deletes when told to, the client's unlink when the counter says "last name") -/
+def SafeRunL : St → List Op → Prop
+  | _, [] => True
+  | s, op :: t =>
+    (∀ c ∈ emitted (step s op).2, ¬ Referenced (step s op).1 c) ∧
+    (SwV.Spec.C20.requestsDeletion s op = true →
+      ∀ c, Referenced s c → ¬ Referenced (step s op).1 c → c ∈ emitted (step s op).2) ∧
+    SafeRunL (step s op).1 t
+
+open SwV.Lemmas.C20Links SwV.Lemmas.C21 in
+/-- FULL-STRENGTH statement: gc_safe ∧ gc_complete at every step of EVERY history. False (witnesses below: delete of one
+    linked name with data deletion, plain create / rename over a linked name, recursive delete over links).
+    PARTIAL (hypothesis `AllowedRunL` = the history avoids those recorded classes and respects the client contract):
+    along any history of creates / overwrites, writes through plain AND linked names, links, unlinks (last name or not)
+    and file deletes, no chunk handed to a deletion sink is still referenced by a live name — directly or through a hard
+    link — and every chunk that stops being referenced by an operation that asked for data deletion is handed over;
+    at every step. Induction over the history; invariant `TreeInv` ∧ `ConsAll` ∧ `ExclL`. -/
+theorem gc_history_links_partial (ops : List Op) : ∀ s, TreeInv s → ConsAll s → ExclL s → AllowedRunL s ops →
+    SafeRunL s ops ∧ TreeInv (run s ops) ∧ ConsAll (run s ops) ∧ ExclL (run s ops) := by
+  induction ops with
+  | nil => intro s inv c ex _; exact ⟨trivial, inv, c, ex⟩
+  | cons op t ih =>
+    intro s inv c ex ok
+    have G := gc_step_links s op inv c ex ok.1
+    have IH := ih _ G.1 G.2.1 G.2.2.1 ok.2
+    exact ⟨⟨G.2.2.2.1, G.2.2.2.2, IH.1⟩, IH.2⟩
+
+open SwV.Lemmas.C20Links SwV.Lemmas.C21 in
+theorem gc_history_links_from_empty (ops : List Op) (ok : AllowedRunL {} ops) : SafeRunL {} ops :=
+  (gc_history_links_partial ops {} inv_empty
+    (by intro h _; simp [Cons, kvGet, nameCount])
+    (by rintro p q k k' cs cs' ⟨e, hm, _⟩; simp at hm) ok).1
+
+/-- non-vacuity: create /a (chunk 1), link it to /b with the fresh identity 7, unlink /a (nothing handed over: /b still
+    shows chunk 1), unlink /b (the last name: chunk 1 handed to the deletion sink) -/
+def linkHistory : List Op := [
+  .create ["a"] { isDir := false, tag := 1, chunks := [1], hl := 0, cnt := 0 } false,
+  .link ["a"] ["b"] 7,
+  .unlink ["a"],
+  .unlink ["b"]]
+
+theorem file_of_find_all (s : St) (p : RPath) (h : ((find s p).all fun o => !o.isDir) = true) :
+    ∀ o, find s p = some o → o.isDir = false := by
+  intro o ho
+  rw [ho] at h
+  simpa using h
+
+open SwV.Lemmas.C20Links SwV.Lemmas.C21 in
+example : AllowedRunL {} linkHistory ∧
+    emitted (step (run {} (linkHistory.take 2)) (.unlink ["a"])).2 = [] ∧
+    emitted (step (run {} (linkHistory.take 3)) (.unlink ["b"])).2 = [1] := by
+  refine ⟨⟨⟨rfl, (fun a h => by cases h), ?_⟩, ?_, ?_, ?_, trivial⟩, by decide, by decide⟩
+  · rintro q k' cs' ⟨e, hm, _⟩
+    cases hm
+  · intro ex _ _
+    exact ⟨by decide, by decide⟩
+  · exact file_of_find_all _ _ (by decide)
+  · exact file_of_find_all _ _ (by decide)
 
 /-! ### what is NOT true of the code (known findings): witnesses
 
